@@ -307,6 +307,10 @@ func lzSynth(r *rand.Rand, n int, h Hint) []byte {
 			lens = append(lens, l-1, l, l+1)
 		}
 	}
+	if h.Block > 300 {
+		// long repeats (beyond typical "nice length" limits of LZ parsers)
+		lens = append(lens, 272, 273, 274, 300, 400, 500, 273, 280)
+	}
 	for len(b) < n {
 		if len(b) == 0 || r.Intn(3) == 0 {
 			l := 1 + r.Intn(6)
